@@ -4895,7 +4895,14 @@ def name_list_order(repo: Repo, f: FuncInfo, e: ast.expr, depth: int = 0) -> str
         return None
     if isinstance(e, ast.Name):
         if e.id in f.param_names:
-            return None
+            # a parameter: ordered as what every call site passes (unless the function re-binds or sorts it itself)
+            if origins(repo)._bindings(f, e.id) or any(isinstance(c, ast.Call) and isinstance(c.func, ast.Attribute) and c.func.attr == "sort" and isinstance(c.func.value, ast.Name) and c.func.value.id == e.id for c in own_nodes(f.node)):
+                return None
+            args = _callers_args(repo, f, e.id)
+            if not args or any(isinstance(a, ast.Starred) for _h, a in args):
+                return None
+            kinds = {name_list_order(repo, h, a, depth + 1) for h, a in args}
+            return kinds.pop() if len(kinds) == 1 else None
         binds = origins(repo)._bindings(f, e.id)
         vals = [src for kind, src, p_ in binds if kind == "value" and not p_]
         if not binds or len(vals) != len(binds):
